@@ -47,7 +47,8 @@ def gen_options(rng):
     o = dict(delim=rng.random() < 0.75, afd=rng.random() < 0.5, mafd=rng.random() < 0.5,
              bdelim=rng.random() < 0.5, b2delim=rng.random() < 0.5, nullable_item=False,
              bmafd=rng.random() < 0.5, bm_same=rng.random() < 0.4, b_nullable=False, seq_any=rng.random() < 0.3,
-             seq_containers=rng.random() < 0.3, aux_first=rng.random() < 0.3)
+             seq_containers=rng.random() < 0.3, aux_first=rng.random() < 0.3,
+             decl_order=rng.choice(['top-down', 'top-down', 'bottom-up', 'shuffled']))
     if o['delim'] and not o['afd'] and rng.random() < 0.4:
         o['nullable_item'] = True
     if o['bdelim'] and rng.random() < 0.4:
@@ -95,6 +96,15 @@ def mk_prods(o):
         'BITEM': [('NUMBER',), None],
         'BL2': ListProds(None, 'WORD', ',' if o['b2delim'] else None, None),
     }
+    order = o.get('decl_order')
+    if order == 'bottom-up':
+        # building blocks first, the start symbol last
+        prods = dict(reversed(list(prods.items())))
+    elif order == 'shuffled':
+        import random
+        items = list(prods.items())
+        random.Random(repr(sorted((k, str(v)) for k, v in o.items()))).shuffle(items)
+        prods = dict(items)
     return prods
 
 
@@ -145,11 +155,21 @@ def gen_item(rng, d, o):
     return gen_val(rng, d, o)
 
 
+# comments hide everything up to the end of the line: also behind characters some line-splitting functions
+# (not '\n'.split) take for line ends
+ODD_COMMENTS = [" # a\x0c b, ]\n", "#\x0b[ {\n", " # k\u2028: v }\n", " # \x85 , ;\n", " #\r) >\n", " # \x1c| %\n",
+                " # \x1e.\n", " # \u2029~\n"]
+
+
 def ws(rng):
+    if rng.random() < 0.04:
+        return rng.choice(ODD_COMMENTS)
     return rng.choice(["", "", " ", "  ", "\n", " # c\n", "\n\n ", "\t"])
 
 
 def sep(rng):
+    if rng.random() < 0.04:
+        return rng.choice(ODD_COMMENTS)
     return rng.choice([" ", "\n", " # c ]\n ", "  "])
 
 
